@@ -63,14 +63,14 @@ CLAUSES = (
     "every-traversal-is-complete",
 )
 
-START_TODS = ((0, 0), (14, 30))
+START_TODS = ((0, 0), (14, 30), (9, 30, 15))
 FLAGS = ((False, False), (False, True), (True, False), (True, True))
 MAX_FAILURES = 25
 
 BOUND = (
     "Start date: every date 2015-12-15 .. 2032-03-15 (5935 dates: every weekday alignment, every month and year "
     "end, the leap days 2016/2020/2024/2028-02-29).  For each start date and each start time of day in {00:00, "
-    "14:30} UTC: (a) end = start date + L days at 23:59 for L in {0,1,2,3,4,5,6,7,8,9,10,31,33,70,366,800}; "
+    "14:30, 09:30:15} UTC (the last carries seconds: event stamps are exact minutes whatever the start's seconds): (a) end = start date + L days at 23:59 for L in {0,1,2,3,4,5,6,7,8,9,10,31,33,70,366,800}; "
     "(b) end = start date + L days at the start's own time of day (edge of 'end time of day not before the "
     "start's'; L=0 is end == start) for L in {0,1,3,7,31}; each of (a),(b) with all four pre/post-market flag "
     "combinations; (c) rejected shapes end < start: start - 1 minute, start - 1 day, the previous day 23:59, 7 "
